@@ -311,8 +311,20 @@ def check_pairing(run, ix):
     need = {'mpf_pi', 'mpf_e', 'mpf_ln2', 'mpf_ln10', 'mpf_phi', 'mpf_degree', 'mpf_euler',
             'mpf_catalan', 'mpf_apery', 'mpf_khinchin', 'mpf_glaisher', 'mpf_mertens'}
     missing = need - set(pairs)
-    if missing:
-        raise AnalysisError('constants not found: %s' % sorted(missing))
+    for name in sorted(missing):
+        # defined in some other way (a hand-written function)?  Then it bypasses the directed evaluation that
+        # K-R1 / K-R6 verify in def_mpf_constant (floor value, +1 bump for upward modes, boundary retry).
+        other = ix.find_func(LIBELE, name) or ix.find_func(GZ, name)
+        if other is not None:
+            run.fail(Finding('K-R2', other.file, other.qualname, 'def %s' % name,
+                             'the constant %s is not built by def_mpf_constant(<fixed-point function>): its directed '
+                             'rounding (floor value, bump for the upward modes, retry near a rounding boundary) is '
+                             'whatever this function does by hand -- e.g. a rounded division of another constant returns '
+                             'a value on the wrong side when the quotient happens to be representable' % name,
+                             line=other.lineno))
+            pairs[name] = None
+        else:
+            raise AnalysisError('constant %s not found' % name)
     return pairs
 
 
